@@ -284,6 +284,11 @@ class VersionConstraint:
         if len(set(c.version for c in constraints)) != len(constraints):
             raise ValueError(f"{constraints!r} cannot contain duplicated Version")
 
+        # "*" can only occur alone. A "*" constraint has no version and cannot
+        # be sorted with other constraints: check this before sorting.
+        if len(constraints) > 1 and any(c.comparator == "*" for c in constraints):
+            raise ValueError(f"Invalid {constraints!r}: can contain only one star '*'")
+
         # Constraints are sorted by version**. The canonical ordering is the versions
         # order. The ordering of ``<version-constraint>`` is not significant otherwise
         # but this sort order is needed when check if a version is contained in a range.
